@@ -3,7 +3,10 @@ import FiberModel.C11.Spec
 /-
 Driver for C11. Case fields (after the id):
   rt  source split auto schema  v₁ … vₙ (one hex list of texts per schema entry)            implObs
-  raw source split auto target schema ctype(hex) payload(hex) headers(hex list "Name: value") implObs
+  raw source split auto target schema ctype(hex) payload(hex) headers(hex list "Name: value") mp implObs
+mp  = what fasthttp's multipart reader finds in the body (a parameter of the model, shipped by the
+      harness): `-` (not the multipart branch) | `err` | `ok:` entries `hex(name)=hexlist(values)` and
+      `f:hex(name)` (file parts) joined by `/`.
 schema = entries `calias:salias:qalias:goName:kind:bits:slice` (hex names) joined by `|`.
 implObs = `wire=…;dec=…;err=…;code=…;status=…;codec=…` | `senderr=…` | `notrun;status=…` | `panic=…`.
 -/
@@ -165,16 +168,17 @@ def handleRT (id : String) (src split auto schema : String) (vals : List String)
     renderObs (toHexField ct) (renderDec (structVals st)) false 0 200 codec
   let viaPairs (s : Source) (wire : String) (pairs : List (Bytes × Bytes)) : String :=
     let r := bindPairs idFloat (b "0") specs s split pairs
-    renderObs wire (renderDec (structVals r.value)) r.err (if r.err && auto then 400 else 0)
-      (statusOf auto r.err false) "-"
+    renderObs wire (renderDec (structVals r.value)) r.err (codeOf auto r.err) (statusOf auto r.err false) "-"
   let modelObs : String :=
     if !wf then impl
     else match t with
       | .query => let w := renderArgs (clientPairs st); viaPairs .query (toHexField w) (parseArgs w)
       | .form => let w := renderArgs (clientPairs st); viaPairs .form (toHexField w) (parseArgs w)
       | .header =>
-        let ps := clientPairs st
-        viaPairs .header (hexListField (ps.map fun kv => kv.1 ++ b ": " ++ kv.2)) ps
+        let ps := clientPairsN normalizeHeaderKey st   -- fasthttp canonicalises the names the client adds
+        -- the harness lists the `X-…` lines only (the others are the client's own headers)
+        let xs := ps.filter fun kv => decide (kv.1.length > 2) && kv.1.take 2 == b "X-"
+        viaPairs .header (hexListField (xs.map fun kv => kv.1 ++ b ": " ++ kv.2)) ps
       | .cookie =>
         let ps := cookiePairs st
         viaPairs .cookie (toHexField (cookieItems ps)) (parseCookies (renderCookies ps))
@@ -196,35 +200,56 @@ def handleRT (id : String) (src split auto schema : String) (vals : List String)
   let spec : Option String := match obs with
     | none => some "unparsable-observation"
     | some o => specRoundTrip t split auto st o
-  let k1 := t == .cookie && multiValuedSlice st
+  -- K1 is claimed only for exactly the recorded defect: cookie source, some slice with ≥ 2 elements,
+  -- and the server received the struct with every slice cut to its last element, without error.
+  -- Any other deviation in that region stays an unexcused failure.
+  let k1region := t == .cookie && multiValuedSlice st
+  let k1 := k1region && io.kind == "obs" && !io.err && io.status == 200 &&
+            (readDec specs io.dec) == some (structVals (lastOnly st))
   let tags := [s!"rt-{src}", if wf then "wf" else "outside-model",
                if split && !noCommas st then "split-with-commas" else if split then "split-no-commas" else "nosplit"] ++
-              (if k1 then ["k1-region"] else []) ++
+              (if k1region then ["k1-region"] else []) ++ (if k1 then ["k1-exact"] else []) ++
               (if wf && !isZeroStruct st then [s!"nt-rt-{src}"] else [])
   pure { id := id, modelObs := modelObs, implObs := impl, spec := spec,
-         known := if k1 then some "K1" else none, tags := tags }
+         known := if k1 && spec == some "roundtrip-equal-value" then some "K1" else none, tags := tags }
 
 def specialHeader (k : Bytes) : Bool :=
   [b "host", b "content-type", b "content-length", b "user-agent", b "cookie", b "connection",
    b "transfer-encoding", b "trailer"].contains (toLower k)
-
-/-- fasthttp `normalizeHeaderKey` -/
-def normalizeHeaderKey : Bytes → Bytes
-  | [] => []
-  | c :: cs =>
-    let rec go : Bytes → Bool → Bytes
-      | [], _ => []
-      | x :: xs, up => if up then upperByte x :: go xs false
-                       else if x == 45 then x :: go xs true else lowerByte x :: go xs false
-    upperByte c :: go cs false
 
 def cutHeader (h : Bytes) : Option (Bytes × Bytes) :=
   match indexOf h (b ": ") with
   | some i => some (h.take i, h.drop (i + 2))
   | none => none
 
-def handleRaw (id : String) (src split auto target schema ctype payload hdrs impl : String) :
+inductive MpInfo where
+  | na
+  | err
+  | ok (values : List (Bytes × List Bytes)) (files : List Bytes)
+
+def parseMp (s : String) : Option MpInfo :=
+  if s == "-" then some .na
+  else if s == "err" then some .err
+  else if s.startsWith "ok:" then
+    let body := (s.drop 3).toString
+    if body.isEmpty then some (.ok [] []) else
+    let step (acc : Option (List (Bytes × List Bytes) × List Bytes)) (e : String) :=
+      match acc with
+      | none => none
+      | some (vs, fs) =>
+        if e.startsWith "f:" then (fromHex (e.drop 2).toString).map fun k => (vs, fs ++ [k])
+        else match e.splitOn "=" with
+          | [k, l] => do
+            let k ← fromHex k
+            let l ← hexList l
+            some (vs ++ [(k, l)], fs)
+          | _ => none
+    ((body.splitOn "/").foldl step (some ([], []))).map fun r => .ok r.1 r.2
+  else none
+
+def handleRaw (id : String) (src split auto target schema ctype payload hdrs mp impl : String) :
     Except String Verdict := do
+  let some mp := parseMp mp | throw "outside-domain: multipart info"
   if (split != "0" && split != "1") || (auto != "0" && auto != "1") then throw "outside-domain: flags"
   if target != "struct" && target != "map" then throw "outside-domain: target"
   let split := split == "1"
@@ -264,8 +289,24 @@ def handleRaw (id : String) (src split auto target schema ctype payload hdrs imp
        | .xml => pure (Source.form, [], w, "xml", true, false)
        | .cbor => pure (Source.form, [], w, "cbor", true, false)
        | .form =>
-         if formIsMultipart ctype then pure (Source.form, [], w, "-", true, false)
-         else pure (Source.form, postArgs ctype payload, w, "-", false, false)
+         if formIsMultipart ctype then
+           -- `FormBinding.bindMultipart`: the multipart reader is a parameter (`mp`); the binder walks
+           -- a Go map, so the order of the *names* is arbitrary: inputs whose result would depend on
+           -- it (two names that normalise to one key) are outside the domain.
+           match mp with
+           | .na => throw "outside-domain: multipart info missing"
+           | .err => pure (Source.form, [(b "[", [])], w, "-", false, false)   -- any error: same outcome as a bracket error
+           | .ok vals files =>
+             if files.any (·.contains 91) then throw "outside-domain: bracketed file part name"
+             else
+               let norm := vals.map fun kv => if kv.1.contains 91 then parseParamSquareBrackets kv.1 else some kv.1
+               if !nodupB (norm.filterMap fun x => x) then
+                 pure (Source.form, [], w, "-", true, false)   -- order-dependent: value taken from the observation
+               else pure (Source.form, vals.flatMap (fun kv => kv.2.map fun v => (kv.1, v)), w, "-", false, false)
+         else
+           match mp with
+           | .na => pure (Source.form, postArgs ctype payload, w, "-", false, false)
+           | _ => throw "outside-domain: multipart info for a non-multipart body"
      | _ => throw "outside-domain: source" : Except String (Source × List (Bytes × Bytes) × String × String × Bool × Bool))
   let zeroDec := if target == "map" then "-" else renderDec (structVals (zeroStruct (b "0") specs))
   let mut outside := false
@@ -275,28 +316,32 @@ def handleRaw (id : String) (src split auto target schema ctype payload hdrs imp
        -- codec internals are parameters of the model: decoded value and success are taken from the
        -- observation; selection, error code and status are predicted
        if io.kind == "panic" then pure impl
-       else pure (renderObs wire io.dec io.err (if io.err && auto then 400 else 0) (statusOf auto io.err false) codec)
+       else pure (renderObs wire io.dec io.err (codeOf auto io.err) (statusOf auto io.err false) codec)
      else if target == "map" then
        match bindPairsMap s split pairs with
-       | none => pure (renderObs wire "-" true (if auto then 400 else 0) (statusOf auto true false) "-")
+       | none => pure (renderObs wire "-" true (codeOf auto true) (statusOf auto true false) "-")
        | some m => pure (renderObs wire (renderMap m) false 0 200 "-")
      else
        match collect (equalFieldType specs) split s.brackets pairs [] with
-       | none => pure (renderObs wire zeroDec true (if auto then 400 else 0) (statusOf auto true false) "-")
+       | none => pure (renderObs wire zeroDec true (codeOf auto true) (statusOf auto true false) "-")
        | some data =>
-         if ambiguous specs data then throw "outside-domain: keys differing only in case"
+         if ambiguous specs data then pure "FLOAT"   -- Go map order decides: not predicted
          else if floatTouched specs data then pure "FLOAT"
          else
            let r := decodeFields noFloat (b "0") specs data
-           pure (renderObs wire (renderDec (structVals r.1)) r.2 (if r.2 && auto then 400 else 0)
+           pure (renderObs wire (renderDec (structVals r.1)) r.2 (codeOf auto r.2)
                    (statusOf auto r.2 false) "-") : Except String String)
+  if modelObs == "FLOAT" then outside := true
   let modelObs := if modelObs == "FLOAT" then impl else modelObs
   if modelObs == impl && opq then outside := true
   let obs : Obs :=
     { panicked := io.kind == "panic", ran := true, sendErr := false, dec := [], err := io.err, code := io.code, status := io.status }
-  let spec := specTotal auto obs
+  -- 422 is the documented outcome only for a body whose content type selects no decoder
+  let spec := specTotal auto (src == "body" && dispatch ctype == Codec.none) obs
   let tags := [s!"raw-{src}", s!"to-{target}", if io.err then "err" else "ok"] ++
               (if opq then ["codec-opaque"] else []) ++ (if noCodec then ["no-codec"] else []) ++
+              (if outside then ["outside-model"] else []) ++
+              (match mp with | .ok _ _ => ["multipart-parsed"] | .err => ["multipart-unreadable"] | .na => []) ++
               (if src == "body" then [s!"dispatch-{codec}"] else []) ++
               (if !payload.isEmpty || !hdrs.isEmpty then [s!"nt-raw-{src}"] else [])
   pure { id := id, modelObs := modelObs, implObs := impl, spec := spec, tags := tags }
@@ -307,8 +352,8 @@ def handleCase (f : List String) : Except String Verdict := do
     match rest.reverse with
     | impl :: valsRev => handleRT id src split auto schema valsRev.reverse impl
     | [] => throw "outside-domain: fields"
-  | [id, "raw", src, split, auto, target, schema, ctype, payload, hdrs, impl] =>
-    handleRaw id src split auto target schema ctype payload hdrs impl
+  | [id, "raw", src, split, auto, target, schema, ctype, payload, hdrs, mp, impl] =>
+    handleRaw id src split auto target schema ctype payload hdrs mp impl
   | _ => throw s!"outside-domain: unknown case shape ({f.length} fields)"
 
 def main : IO Unit := run handleCase
